@@ -774,4 +774,293 @@ Section CrashP.
       + discriminate.
       + reflexivity.
   Qed.
+  (* ================= the extra invariant of [crun] traces ================= *)
+  Definition top (st : wfst) : N :=
+    match w_h st with Some h => if w_dirty st then h + 1 else h | None => 0 end.
+  Definition hcN (st : wfst) : N := match w_hc st with Some hc => hc | None => 0 end.
+  Definition cache_hi (st : wfst) (x : N) : Prop :=
+    match w_h st with Some _ => x <= top st | None => w_open st = Some x end.
+
+  (* a block table: ordered; its durable rows are at or below the height of the last commit,
+     its cached rows above it and at most the block under construction *)
+  Record BT (t : btable N) (st : wfst) : Prop := {
+    bt_s : bt_sorted t;
+    bt_db : forall x, In x (map fst (b_db t)) -> exists hc, w_hc st = Some hc /\ x <= hc;
+    bt_lo : forall x hc, In x (map fst (b_cache t)) -> w_hc st = Some hc -> hc < x;
+    bt_hi : forall x, In x (map fst (b_cache t)) -> cache_hi st x;
+  }.
+
+  Record CInv (s : store) (F : fspec) (st : wfst) : Prop := {
+    ci_hash : BT (st_hash s) st;
+    ci_blk : BT (st_blk s) st;
+    ci_raw : BT (st_raw s) st;
+    ci_ord : forall hc, w_hc st = Some hc -> exists h, w_h st = Some h /\ hc <= h;
+    (* nothing written since the last commit is stamped at or below its height *)
+    ci_agree : forall hc, w_hc st = Some hc -> forall k m, m <= hc -> fst F k m = snd F k m;
+    (* no value is stamped above the height it was written at *)
+    ci_fsav : forall k m, hcN st <= m -> snd F k m = snd F k (hcN st);
+    ci_fcur : forall k m, top st <= m -> fst F k m = fst F k (top st);
+    (* the block of the last commit has its durable height row *)
+    ci_hc : forall hc, w_hc st = Some hc -> In hc (map fst (b_db (st_hash s)));
+    ci_hrow : w_dirty st = false -> forall h, w_h st = Some h -> b_get (st_hash s) h <> None;
+    (* nothing is cached unless a block was finalised since the last commit *)
+    ci_empty : w_dirty st = false -> b_cache (st_hash s) = [] ->
+               t_cache (st_t s) = [] /\ b_cache (st_blk s) = [] /\ b_cache (st_raw s) = [];
+  }.
+
+  Lemma BT_same t st st' :
+    w_hc st' = w_hc st -> (forall x, cache_hi st x -> cache_hi st' x) -> BT t st -> BT t st'.
+  Proof.
+    intros E H [A B C D]. constructor; [exact A| | |].
+    - intros x Hx. rewrite E. apply B. exact Hx.
+    - intros x hc Hx Hhc. rewrite E in Hhc. apply (C x hc Hx Hhc).
+    - intros x Hx. apply H. apply D. exact Hx.
+  Qed.
+
+  Lemma BT_set t st st' n v :
+    w_hc st' = w_hc st -> (forall x, cache_hi st x -> cache_hi st' x) ->
+    (forall hc, w_hc st = Some hc -> hc < n) -> cache_hi st' n ->
+    BT t st -> BT (b_set t n v) st'.
+  Proof.
+    intros E H Hlo Hhi [[A1 A2] B C D]. constructor; cbn [b_set b_db b_cache].
+    - split; [exact A1|apply ksorted_put; exact A2].
+    - intros x Hx. rewrite E. apply B. exact Hx.
+    - intros x hc Hx Hhc. rewrite E in Hhc. destruct (keys_kv_put _ _ _ _ Hx) as [->|Hx'].
+      + apply Hlo. exact Hhc.
+      + apply (C x hc Hx' Hhc).
+    - intros x Hx. destruct (keys_kv_put _ _ _ _ Hx) as [->|Hx']; [exact Hhi|].
+      apply H. apply D. exact Hx'.
+  Qed.
+
+  Lemma BT_commit_clear t st' :
+    bt_sorted t ->
+    (forall x, In x (map fst (b_db t) ++ map fst (b_cache t)) -> exists hc, w_hc st' = Some hc /\ x <= hc) ->
+    BT (b_clear (b_commit t)) st'.
+  Proof.
+    intros [A1 A2] H. constructor; cbn [b_clear b_db b_cache map].
+    - split; [apply ksorted_puts; exact A1|constructor].
+    - intros x Hx. apply H. apply in_or_app. apply (keys_b_commit_db t x Hx).
+    - intros x hc [].
+    - intros x [].
+  Qed.
+
+  Lemma BT_clear t st' :
+    bt_sorted t -> (forall x, In x (map fst (b_db t)) -> exists hc, w_hc st' = Some hc /\ x <= hc) ->
+    BT (b_clear t) st'.
+  Proof.
+    intros [A1 A2] H. constructor; cbn [b_clear b_db b_cache map].
+    - split; [exact A1|constructor].
+    - exact H.
+    - intros x hc [].
+    - intros x [].
+  Qed.
+
+  Lemma bt_sorted_reorg t n : bt_sorted t -> bt_sorted (b_reorg t n).
+  Proof. intros [A B]. split; apply ksorted_filter; assumption. Qed.
+
+  Lemma BT_reorg t st' n :
+    bt_sorted t -> w_hc st' = Some n -> BT (b_clear (b_commit (b_reorg t n))) st'.
+  Proof.
+    intros Hs E. apply BT_commit_clear; [apply bt_sorted_reorg; exact Hs|].
+    intros x Hx. exists n. split; [exact E|]. cbn [b_reorg b_db b_cache] in Hx.
+    apply in_app_or in Hx as [Hx|Hx]; apply (filter_le_keys _ _ _ Hx).
+  Qed.
+
+  Lemma frozen_mono (f : N -> option N) a b :
+    (forall m, a <= m -> f m = f a) -> a <= b -> forall m, b <= m -> f m = f b.
+  Proof. intros H Hab m Hm. rewrite (H m ltac:(lia)), (H b Hab). reflexivity. Qed.
+
+  Lemma CInv_init : CInv st_empty fs_init wf_init.
+  Proof.
+    assert (B : BT b_empty wf_init).
+    { constructor; cbn; try (intros; contradiction). split; constructor. }
+    constructor; cbn [st_empty st_hash st_blk st_raw st_t wf_init w_h w_hc w_dirty w_open]; try exact B;
+      try discriminate; try reflexivity.
+    - intros _ _. repeat split.
+  Qed.
+
+  Lemma b_get_in_cache_or_db (t : btable N) x :
+    b_get t x <> None -> kv_get (b_cache t) x <> None \/ kv_get (b_db t) x <> None.
+  Proof. unfold b_get. destruct (kv_get (b_cache t) x); [left; discriminate|right; assumption]. Qed.
+
+  Theorem CInv_step s F st o st' s' :
+    SInv W s F st -> CInv s F st -> crash_step_ok s o = true ->
+    wf_step W st o = Some st' -> sto_step W s o = Ok s' ->
+    CInv s' (fs_step F o) st'.
+  Proof.
+    intros I CI Hok Hwf Hs. destruct F as [cur sav].
+    destruct CI as [Hh Hb Hr Hord Hag Hfs Hfc Hhc Hrow Hemp]. cbn [fst snd] in *.
+    destruct o as [stamp k v|which n v|n| | |n]; cbn [wf_step sto_step fs_step crash_step_ok] in *.
+    - (* SV *)
+      destruct (stamp_ok_for st stamp) eqn:Hst; [|discriminate]. injection Hwf as <-.
+      set (st1 := mkWf (w_h st) (w_m st) (w_hc st) true (w_open st)).
+      assert (Htop : top st <= top st1).
+      { unfold top, st1. cbn [w_h w_dirty]. destruct (w_h st); [|lia]. destruct (w_dirty st); lia. }
+      assert (Hhi : forall x, cache_hi st x -> cache_hi st1 x).
+      { intros x. unfold cache_hi. cbn [w_h w_open st1]. destruct (w_h st); [lia|auto]. }
+      assert (Hstamp : stamp = top st1).
+      { unfold stamp_ok_for in Hst. unfold top, st1. cbn [w_h w_dirty].
+        destruct (w_h st); apply N.eqb_eq in Hst; exact Hst. }
+      assert (G : forall t', CInv (mkStore t' (st_hash s) (st_blk s) (st_raw s) (st_max s) (st_lbn s))
+                                  (upd cur k (s_set (cur k) stamp v), sav) st1).
+      { intros t'. constructor; cbn [st_t st_hash st_blk st_raw fst snd];
+          try (apply (BT_same _ st); [reflexivity|exact Hhi|assumption]).
+        - exact Hord.
+        - intros hc Ehc k' m Hm. cbn [st1 w_hc] in Ehc. destruct (Hord hc Ehc) as (h & Eh & Hle).
+          unfold upd. destruct (N.eqb_spec k k') as [<-|Hne]; [|apply (Hag hc Ehc); exact Hm].
+          unfold s_set. rewrite Hstamp. unfold top, st1. cbn [w_h w_dirty]. rewrite Eh.
+          destruct (N.leb_spec (h + 1) m); [lia|]. apply (Hag hc Ehc). exact Hm.
+        - exact Hfs.
+        - intros k' m Hm. unfold upd. destruct (N.eqb_spec k k') as [<-|Hne].
+          + unfold s_set. rewrite Hstamp. destruct (N.leb_spec (top st1) m); [|lia].
+            destruct (N.leb_spec (top st1) (top st1)); [reflexivity|lia].
+          + apply (frozen_mono (cur k') (top st) (top st1) (Hfc k') Htop m Hm).
+        - exact Hhc.
+        - discriminate.
+        - discriminate. }
+      destruct v as [v|]; cbn [sto_step] in Hs.
+      + destruct (t_set N.eqb W (st_t s) stamp k v) as [t'| |]; cbn [rbind] in Hs; try discriminate.
+        injection Hs as <-. apply G.
+      + destruct (t_unset W (st_t s) stamp k) as [t'| |]; cbn [rbind] in Hs; try discriminate.
+        injection Hs as <-. apply G.
+    - (* SB *)
+      destruct (row_ok_for st n) eqn:Hrowok; [|discriminate]. injection Hwf as <-. injection Hs as <-.
+      set (st1 := mkWf (w_h st) (w_m st) (w_hc st) true (Some n)).
+      assert (Htop : top st <= top st1).
+      { unfold top, st1. cbn [w_h w_dirty]. destruct (w_h st); [|lia]. destruct (w_dirty st); lia. }
+      assert (Hhi : forall x, cache_hi st x -> cache_hi st1 x).
+      { intros x. unfold cache_hi. cbn [w_h w_open st1]. unfold row_ok_for in Hrowok.
+        destruct (w_h st); [lia|]. intros E. rewrite E in Hrowok. apply N.eqb_eq in Hrowok. congruence. }
+      assert (Hlo : forall hc, w_hc st = Some hc -> hc < n).
+      { intros hc Ehc. destruct (Hord hc Ehc) as (h & Eh & Hle). unfold row_ok_for in Hrowok.
+        rewrite Eh in Hrowok. apply N.eqb_eq in Hrowok. lia. }
+      assert (Hhin : cache_hi st1 n).
+      { unfold cache_hi, top, st1. cbn [w_h w_open w_dirty]. unfold row_ok_for in Hrowok.
+        destruct (w_h st); [apply N.eqb_eq in Hrowok; lia|reflexivity]. }
+      assert (Hfc1 : forall k m, top st1 <= m -> cur k m = cur k (top st1)).
+      { intros k m Hm. apply (frozen_mono (cur k) (top st) (top st1) (Hfc k) Htop m Hm). }
+      destruct which as [|[q|q|]];
+        (constructor; cbn [st_t st_hash st_blk st_raw fst snd];
+         [ first [apply (BT_set _ st); [reflexivity|exact Hhi|exact Hlo|exact Hhin|assumption]
+                 |apply (BT_same _ st); [reflexivity|exact Hhi|assumption]]
+         | first [apply (BT_set _ st); [reflexivity|exact Hhi|exact Hlo|exact Hhin|assumption]
+                 |apply (BT_same _ st); [reflexivity|exact Hhi|assumption]]
+         | first [apply (BT_set _ st); [reflexivity|exact Hhi|exact Hlo|exact Hhin|assumption]
+                 |apply (BT_same _ st); [reflexivity|exact Hhi|assumption]]
+         | exact Hord | exact Hag | exact Hfs | exact Hfc1 | exact Hhc | discriminate | discriminate ]).
+    - (* SHash *)
+      destruct (row_ok_for st n) eqn:Hrowok; [|discriminate]. injection Hwf as <-. injection Hs as <-.
+      destruct (kv_get (b_cache (st_hash s)) n) as [rowv|] eqn:Erow; [|discriminate].
+      set (st1 := mkWf (Some n) (N.max (w_m st) n) (w_hc st) false None).
+      assert (Htop : top st <= top st1).
+      { unfold top, st1. cbn [w_h w_dirty]. unfold row_ok_for in Hrowok.
+        destruct (w_h st); [|lia]. apply N.eqb_eq in Hrowok. destruct (w_dirty st); lia. }
+      assert (Hhi : forall x, cache_hi st x -> cache_hi st1 x).
+      { intros x. unfold cache_hi. cbn [w_h st1]. unfold top at 2. cbn [w_h w_dirty st1].
+        unfold row_ok_for in Hrowok. destruct (w_h st) as [h|] eqn:Eh.
+        - apply N.eqb_eq in Hrowok. unfold top. rewrite Eh. destruct (w_dirty st); lia.
+        - intros E. rewrite E in Hrowok. apply N.eqb_eq in Hrowok. lia. }
+      constructor; cbn [st_t st_hash st_blk st_raw fst snd];
+        try (apply (BT_same _ st); [reflexivity|exact Hhi|assumption]).
+      + intros hc Ehc. cbn [st1 w_hc w_h] in *. destruct (Hord hc Ehc) as (h & Eh & Hle).
+        exists n. split; [reflexivity|]. unfold row_ok_for in Hrowok. rewrite Eh in Hrowok.
+        apply N.eqb_eq in Hrowok. lia.
+      + exact Hag.
+      + exact Hfs.
+      + intros k m Hm. apply (frozen_mono (cur k) (top st) (top st1) (Hfc k) Htop m Hm).
+      + exact Hhc.
+      + intros _ h [= <-]. unfold b_get. rewrite Erow. discriminate.
+      + intros _ E. rewrite E in Erow. discriminate.
+    - (* SCommit *)
+      destruct (w_dirty st) eqn:Hd; [discriminate|]. injection Hwf as <-.
+      unfold sto_commit in Hs.
+      destruct (t_commit W (st_t s) (next_height s)) as [t'| |]; cbn [rbind] in Hs; try discriminate.
+      injection Hs as <-.
+      assert (Hopen : w_open st = None) by (destruct I; auto).
+      assert (Hkeys : forall t, BT t st ->
+                forall x, In x (map fst (b_db t) ++ map fst (b_cache t)) ->
+                          exists hc, w_h st = Some hc /\ x <= hc).
+      { intros t [A B C D] x Hx. apply in_app_or in Hx as [Hx|Hx].
+        - destruct (B x Hx) as (hc & Ehc & Hle). destruct (Hord hc Ehc) as (h & Eh & Hle2).
+          exists h. split; [exact Eh|lia].
+        - specialize (D x Hx). unfold cache_hi, top in D. rewrite Hd in D.
+          destruct (w_h st) as [h|]; [exists h; split; [reflexivity|exact D]|congruence]. }
+      constructor; cbn [sto_clear st_t st_hash st_blk st_raw fst snd w_h w_hc w_dirty w_open].
+      + apply BT_commit_clear; [apply Hh|apply (Hkeys _ Hh)].
+      + apply BT_commit_clear; [apply Hb|apply (Hkeys _ Hb)].
+      + apply BT_commit_clear; [apply Hr|apply (Hkeys _ Hr)].
+      + intros hc E. exists hc. split; [exact E|lia].
+      + reflexivity.
+      + intros k m Hm. unfold hcN in *. cbn [w_hc] in *. unfold top in Hfc. rewrite Hd in Hfc.
+        apply Hfc. exact Hm.
+      + intros k m Hm. unfold top in *. cbn [w_h w_dirty] in *. rewrite Hd in Hfc. apply Hfc. exact Hm.
+      + intros hc E. apply kv_get_in_keys. cbn [b_clear b_commit b_db].
+        rewrite (kv_get_fold_put _ _ _ (ksorted_nodup _ (proj2 (bt_s _ _ Hh)))).
+        destruct (b_get_in_cache_or_db _ _ (Hrow eq_refl hc E)) as [H|H];
+          destruct (kv_get (b_cache (st_hash s)) hc); try discriminate; try contradiction; exact H.
+      + intros _ h E. rewrite (b_get_commit_clear _ _ (ksorted_nodup _ (proj2 (bt_s _ _ Hh)))).
+        apply (Hrow eq_refl h E).
+      + intros _ _. repeat split.
+    - (* SClear *)
+      injection Hwf as <-. injection Hs as <-.
+      constructor; cbn [sto_clear st_t st_hash st_blk st_raw fst snd w_h w_hc w_dirty w_open].
+      + apply BT_clear; [apply Hh|apply (bt_db _ _ Hh)].
+      + apply BT_clear; [apply Hb|apply (bt_db _ _ Hb)].
+      + apply BT_clear; [apply Hr|apply (bt_db _ _ Hr)].
+      + intros hc E. exists hc. split; [exact E|lia].
+      + reflexivity.
+      + exact Hfs.
+      + intros k m Hm. unfold top in Hm |- *. cbn [w_h w_dirty] in *. unfold hcN in Hfs.
+        destruct (w_hc st); apply Hfs; exact Hm.
+      + exact Hhc.
+      + intros _ h E. unfold b_get. cbn [b_clear b_cache b_db kv_get].
+        apply kv_get_in_keys. apply Hhc. exact E.
+      + intros _ _. repeat split.
+    - (* SReorg *)
+      destruct (w_h st) as [h|] eqn:Eh; [|discriminate].
+      destruct (negb (w_dirty st) && (n <=? h) && (w_m st <=? n + W)) eqn:Hg; [|discriminate].
+      injection Hwf as <-.
+      destruct (b_get (st_hash s) n) as [rown|] eqn:Erow; [|discriminate].
+      unfold sto_reorg in Hs.
+      destruct (W + n <? match st_max s with Some m => m | None => 0 end); [discriminate|].
+      destruct (t_reorg W (st_t s) n) as [t1| |]; cbn [rbind] in Hs; try discriminate.
+      unfold sto_commit in Hs. cbn [st_t st_hash st_blk st_raw st_max st_lbn] in Hs.
+      destruct (t_commit W t1 _) as [t2| |]; cbn [rbind] in Hs; try discriminate.
+      injection Hs as <-.
+      assert (Hndc : NoDup (map fst (b_cache (b_reorg (st_hash s) n)))).
+      { apply ksorted_nodup. apply (bt_sorted_reorg _ n (bt_s _ _ Hh)). }
+      constructor; cbn [sto_clear st_t st_hash st_blk st_raw fst snd w_h w_hc w_dirty w_open].
+      + apply BT_reorg; [apply Hh|reflexivity].
+      + apply BT_reorg; [apply Hb|reflexivity].
+      + apply BT_reorg; [apply Hr|reflexivity].
+      + intros hc [= <-]. exists n. split; [reflexivity|lia].
+      + reflexivity.
+      + intros k m Hm. unfold hcN in *. cbn [w_hc] in *. unfold s_reorg. f_equal. lia.
+      + intros k m Hm. unfold top in *. cbn [w_h w_dirty] in *. unfold s_reorg. f_equal. lia.
+      + intros hc [= <-]. apply kv_get_in_keys.
+        change (kv_get (b_db (b_clear (b_commit (b_reorg (st_hash s) n)))) n <> None).
+        assert (G : b_get (b_clear (b_commit (b_reorg (st_hash s) n))) n <> None).
+        { rewrite (b_get_commit_clear _ _ Hndc), b_get_reorg, Erow.
+          destruct (N.leb_spec n n); [discriminate|lia]. }
+        exact G.
+      + intros _ h0 [= <-]. rewrite (b_get_commit_clear _ _ Hndc), b_get_reorg, Erow.
+        destruct (N.leb_spec n n); [discriminate|lia].
+      + intros _ _. repeat split.
+  Qed.
+
+  (* along every [crun] trace both invariants hold *)
+  Theorem crun_inv ops : forall st s F st' s',
+    SInv W s F st -> CInv s F st -> crun W st s ops = Some (st', s') ->
+    SInv W s' (fs_run F ops) st' /\ CInv s' (fs_run F ops) st'.
+  Proof.
+    induction ops as [|o r IH]; intros st s F st' s' I CI Hrun.
+    - cbn in Hrun. injection Hrun as <- <-. split; assumption.
+    - cbn [crun] in Hrun.
+      destruct (crash_step_ok s o) eqn:Hok; [|discriminate].
+      destruct (wf_step W st o) as [st1|] eqn:Ew; [|discriminate].
+      destruct (sto_step W s o) as [s1| |] eqn:Es; try discriminate.
+      unfold fs_run. cbn [fold_left].
+      apply (IH st1 s1 (fs_step F o) st' s' (SInv_step W s F st o st1 s1 I Ew Es)
+                (CInv_step s F st o st1 s1 I CI Hok Ew Es) Hrun).
+  Qed.
 End CrashP.
